@@ -272,6 +272,10 @@ pub fn child_main() -> ! {
     unsafe {
         let zero = libc::rlimit { rlim_cur: 0, rlim_max: 0 };
         libc::setrlimit(libc::RLIMIT_CORE, &zero);
+        // wall-clock backstop expressed as CPU time (this process is one CPU-bound OS thread)
+        let cpu = env_u64("SKASIM_CPU", 300);
+        let l = libc::rlimit { rlim_cur: cpu, rlim_max: cpu };
+        libc::setrlimit(libc::RLIMIT_CPU, &l);
         if let Ok(s) = std::env::var("SKASIM_FSIZE") {
             if let Ok(n) = s.parse::<u64>() {
                 let l = libc::rlimit { rlim_cur: n, rlim_max: n };
